@@ -7,4 +7,6 @@ mkdir -p .bin .gen/setup .run evidence replays
 (cd tools/ovgen && go build -o /verif/.bin/ovgen .)
 .bin/ovgen -repo /repo -out /verif/.gen/setup
 (cd engine && go build -tags verif -overlay /verif/.gen/setup/overlay.json -o /verif/.bin/vcheck-setup ./cmd/vcheck)
+# race-detector variant (C18's free-running pass): warms the -race build of the standard library
+(cd engine && CGO_ENABLED=1 go build -race -tags verif -overlay /verif/.gen/setup/overlay.json -o /verif/.bin/vcheck-setup-race ./cmd/vcheck) || echo "race build unavailable: C18 stage C will be skipped" >&2
 echo setup ok
